@@ -1,6 +1,7 @@
 package main
 
 import (
+	"log"
 	"strconv"
 	"bufio"
 	"bytes"
@@ -433,6 +434,9 @@ func c09(args []string) {
 		for i := 0; i < nq; i++ {
 			runQuiet(w, rng, i+int(tr.Seed())*(nq%8))
 		}
+		for i := 0; i < nq; i++ {
+			runTransient(w, rng, i)
+		}
 		for i := 0; i < 4+nfree/20; i++ {
 			in := wellStructuredFrames(rng, 6+rng.Intn(10))
 			capsets := [][]int{{-1, 0, 1}, {0, -1, -1, 2}, {-1, -1, 0}, {1, 0}}
@@ -684,6 +688,88 @@ func runQuiet(w *tr.Writer, rng *rand.Rand, variant int) {
 		}
 		for i := range got2 {
 			w.Emit(c09Recv{"recv", 2, msgDigest(&got2[i])})
+		}
+		end.Leaked = settle2(base)
+	}
+	w.Emit(end)
+}
+
+// pausingSource: data, a transient end-of-file, more data some time later, another transient end-of-file, the rest, and
+// then end-of-file for good - what a serial device that drops out for a moment looks like to the reader
+type pausingSource struct {
+	parts [][]byte
+	gaps  []time.Duration // sleep before handing over part i
+	i     int
+	eof   bool // the next Read reports a transient EOF
+}
+
+func (p *pausingSource) Read(b []byte) (int, error) {
+	if p.eof {
+		p.eof = false
+		return 0, io.EOF
+	}
+	if p.i >= len(p.parts) {
+		return 0, io.EOF
+	}
+	if len(p.parts[p.i]) == 0 {
+		p.i++
+		p.eof = false
+		if p.i >= len(p.parts) {
+			return 0, io.EOF
+		}
+	}
+	if p.gaps[p.i] > 0 {
+		time.Sleep(p.gaps[p.i])
+		p.gaps[p.i] = 0
+	}
+	n := copy(b, p.parts[p.i])
+	p.parts[p.i] = p.parts[p.i][n:]
+	if len(p.parts[p.i]) == 0 {
+		p.i++
+		p.eof = p.i < len(p.parts)
+	}
+	return n, nil
+}
+
+// runTransient: the pipeline with a NON-ZERO end-of-file tolerance (with and without a system log) reading a source
+// that reports end-of-file for a moment twice, the second time later than one tolerance after the first
+func runTransient(w *tr.Writer, rng *rand.Rand, variant int) {
+	var in []byte
+	for k := 0; k < 7; k++ {
+		in = append(in, gen.Frame(rng, []int{1077, 1005, 1087, 1230, 1097, 1006, 1127}[k], 20+rng.Intn(60), 0)...)
+		if k%3 == 1 {
+			in = append(in, gen.Junk(rng, 12, 1)...)
+		}
+	}
+	c1, c2 := len(in)/3+variant%5, 2*len(in)/3+variant%7
+	src := &pausingSource{parts: [][]byte{append([]byte{}, in[:c1]...), append([]byte{}, in[c1:c2]...), append([]byte{}, in[c2:]...)},
+		gaps: []time.Duration{0, 110 * time.Millisecond, time.Duration(20*(variant/2%2)) * time.Millisecond}}
+	cfg := &jsonconfig.Config{TimeoutOnEOFMilliSeconds: 70, WaitTimeOnEOFMilliseconds: 5}
+	if variant%2 == 1 {
+		cfg.SystemLog = log.New(io.Discard, "", 0)
+	}
+	ref := sequentialRef(in, c09Start)
+	ch := make(chan handler.Message, 64)
+	w.Emit(c09Case{"case", ref, 1, fmt.Sprintf("transient-eof log=%v", cfg.SystemLog != nil), []int{64}, len(in), runtime.GOMAXPROCS(0)})
+	base := runtime.NumGoroutine()
+	verifhook.Handler = nil
+	ret := make(chan string, 1)
+	go func() {
+		ret <- tr.Recover(func() {
+			appcore.New(cfg, []chan handler.Message{ch}).HandleMessagesUntilEOF(c09Start, bufio.NewReader(src))
+		})
+	}()
+	end := c09End{Ev: "end"}
+	select {
+	case p := <-ret:
+		end.Returned, end.Panic = true, p
+	case <-time.After(10 * time.Second):
+	}
+	if end.Returned {
+		close(ch)
+		for m := range ch {
+			mm := m
+			w.Emit(c09Recv{"recv", 1, msgDigest(&mm)})
 		}
 		end.Leaked = settle2(base)
 	}
